@@ -245,23 +245,240 @@ fn gen_config(rng: &mut Prng) -> Value {
     })
 }
 
+/// A rule whose effect is visible in every analysis (redirect to a target carrying `tag`, a header `X-V: tag`, unit ids)
+/// and whose triggers put it in the matcher bucket `shape` = (scheme, host, method, path index): two versions of one id
+/// with different shapes live in different buckets of the router.
+fn gen_versioned(rng: &mut Prng, id: &str, tag: &str, shape: (usize, usize, usize, usize)) -> Value {
+    let schemes = [Value::Null, json!("http"), json!("https")];
+    let hosts = [Value::Null, json!("example.org"), json!("other.net")];
+    let methods = [Value::Null, json!(["GET"]), json!(["POST"])];
+    let paths = ["/a", "/b", "/c", "/d", "/x/@m"];
+    let path = paths[shape.3 % paths.len()];
+    let mut rule = json!({
+        "id": id,
+        "source": {
+            "scheme": schemes[shape.0 % 3], "host": hosts[shape.1 % 3], "path": path, "query": null, "ips": null, "headers": null,
+            "methods": methods[shape.2 % 3], "exclude_methods": null, "response_status_codes": null, "exclude_response_status_codes": null, "sampling": null,
+        },
+        "target": format!("/t-{tag}"),
+        "status_code": *rng.pick(&[301u16, 302, 307, 308, 200, 404]),
+        "rank": rng.below(3),
+        "body_filters": if rng.chance(1, 4) { json!([{"action": "append_text", "content": format!("<!--{tag}-->"), "id": format!("ub-{tag}"), "target_hash": "b"}]) } else { Value::Null },
+        "header_filters": [{"action": "add", "header": "X-V", "value": tag, "id": format!("uh-{tag}"), "target_hash": null}],
+        "log_override": null, "reset": null, "stop": null,
+        "examples": [],
+        "redirect_unit_id": format!("ur-{tag}"),
+        "configuration_log_unit_id": null, "configuration_reset_unit_id": null,
+        "target_hash": "t0",
+    });
+    if path.contains("@m") {
+        rule["markers"] = json!([{"name": "m", "regex": "[a-c]+", "transformers": []}]);
+    }
+    rule
+}
+
+fn random_shape(rng: &mut Prng) -> (usize, usize, usize, usize) {
+    // mostly unconstrained scheme / host so that requests are easy to aim
+    (if rng.chance(1, 4) { rng.below(3) } else { 0 }, if rng.chance(1, 3) { rng.below(3) } else { 0 }, rng.below(3), rng.below(5))
+}
+
+fn different_shape(rng: &mut Prng, from: (usize, usize, usize, usize)) -> (usize, usize, usize, usize) {
+    // change exactly one or two dimensions: host / method / scheme / path
+    let mut s = from;
+    for _ in 0..rng.below(2) + 1 {
+        match rng.below(4) {
+            0 => s.0 = (s.0 + 1 + rng.below(2)) % 3,
+            1 => s.1 = (s.1 + 1 + rng.below(2)) % 3,
+            2 => s.2 = (s.2 + 1 + rng.below(2)) % 3,
+            _ => s.3 = (s.3 + 1 + rng.below(4)) % 5,
+        }
+    }
+    if s == from {
+        s.3 = (s.3 + 1) % 5;
+    }
+    s
+}
+
+/// an example this very version of a rule matches (scheme / host / method / path of its source)
+fn example_for(rng: &mut Prng, rule: &Value) -> Value {
+    let src = &rule["source"];
+    let path = src["path"].as_str().unwrap_or("/a").replace("@m", "abc");
+    let url = match (src["host"].as_str(), src["scheme"].as_str()) {
+        (Some(h), sc) => format!("{}://{}{}", sc.unwrap_or("http"), h, path),
+        (None, Some(sc)) => format!("{sc}://example.org{path}"),
+        (None, None) => path,
+    };
+    let method = src["methods"].as_array().and_then(|m| m.first()).cloned().unwrap_or(Value::Null);
+    json!({
+        "url": url, "method": method, "headers": null, "ip_address": null,
+        "response_status_code": match rng.below(3) { 0 => Value::Null, 1 => json!(200), _ => json!(404) },
+        "must_match": rng.chance(1, 2),
+        "unit_ids_applied": match rng.below(3) { 0 => Value::Null, 1 => json!([]), _ => json!([rule["redirect_unit_id"].clone()]) },
+    })
+}
+
 fn gen_case(rng: &mut Prng) -> Value {
     let nb = match rng.below(10) { 0 => 0, 1 => 1, 2 | 3 => 2, 4 | 5 => 3, 6 | 7 => 5, 8 => 8, _ => 14 };
-    let base: Vec<Value> = (0..nb).map(|i| gen_rule(rng, &format!("r{i}"))).collect();
-    let mut deleted = Vec::new();
-    let mut updated = Vec::new();
+    let mut base: Vec<Value> = (0..nb).map(|i| gen_rule(rng, &format!("r{i}"))).collect();
+    let mut deleted: Vec<Value> = Vec::new();
+    let mut updated: Vec<Value> = Vec::new();
+    // probes / examples aimed at superseded versions of rules (the OLD version still matches them)
+    let mut old_probes: Vec<Value> = Vec::new();
     for i in 0..nb {
         match rng.below(6) {
-            0 => deleted.push(json!(format!("r{i}"))),
-            1 => updated.push(gen_rule(rng, &format!("r{i}"))),
+            0 => {
+                if rng.chance(1, 2) {
+                    // a visible rule is deleted: a request it matched must not see it any more
+                    let shape = random_shape(rng);
+                    base[i] = gen_versioned(rng, &format!("r{i}"), &format!("del{i}"), shape);
+                    old_probes.push(example_for(rng, &base[i]));
+                }
+                deleted.push(json!(format!("r{i}")));
+            }
+            1 => {
+                if rng.chance(2, 3) {
+                    // same id, different triggers: the two versions live in different buckets of the matcher
+                    let shape = random_shape(rng);
+                    base[i] = gen_versioned(rng, &format!("r{i}"), &format!("old{i}"), shape);
+                    let new_shape = if rng.chance(3, 4) { different_shape(rng, shape) } else { shape };
+                    let mut u = gen_versioned(rng, &format!("r{i}"), &format!("new{i}"), new_shape);
+                    let (e_old, e_new) = (example_for(rng, &base[i]), example_for(rng, &u));
+                    u["examples"] = json!([e_old.clone(), e_new.clone()]);
+                    old_probes.push(e_old);
+                    old_probes.push(e_new);
+                    updated.push(u);
+                } else {
+                    updated.push(gen_rule(rng, &format!("r{i}")));
+                }
+            }
             _ => {}
         }
     }
     let na = match rng.below(4) { 0 => 0, 1 => 1, 2 => 2, _ => 3 };
-    let added: Vec<Value> = (0..na).map(|i| gen_rule(rng, &format!("n{i}"))).collect();
-    let (deleted, updated, added) = if rng.chance(1, 8) { (vec![], vec![], vec![]) } else { (deleted, updated, added) };
+    let mut added: Vec<Value> = (0..na).map(|i| gen_rule(rng, &format!("n{i}"))).collect();
+    if rng.chance(1, 8) {
+        deleted.clear();
+        updated.clear();
+        added.clear();
+        old_probes.clear();
+    }
+
+    // ---- impact: every combination of action x where the draft rule's id already lives x same / different source
+    let impact: Value = if rng.chance(4, 5) {
+        let action = *rng.pick(&["add", "update", "delete", "add", "update", "delete", "nope"]);
+        let cat = rng.below(5); // 0 new id, 1 in base only, 2 in change_set.added, 3 in change_set.updated (and base), 4 in change_set.deleted (and base)
+        let old_shape = random_shape(rng);
+        let visible_old = rng.chance(3, 4);
+        let mut olds: Vec<Value> = Vec::new(); // the versions of the id that exist before the draft
+        let id: String = match cat {
+            0 => "imp".to_string(),
+            1 => {
+                // an id that the change-set does not touch
+                let touched: Vec<String> = deleted.iter().filter_map(|d| d.as_str().map(|s| s.to_string())).chain(updated.iter().filter_map(|u| u["id"].as_str().map(|s| s.to_string()))).collect();
+                let free: Vec<usize> = (0..base.len()).filter(|i| !touched.contains(&format!("r{i}"))).collect();
+                let i = if free.is_empty() {
+                    base.push(gen_rule(rng, &format!("r{}", base.len())));
+                    base.len() - 1
+                } else {
+                    *rng.pick(&free)
+                };
+                if visible_old {
+                    base[i] = gen_versioned(rng, &format!("r{i}"), "oldbase", old_shape);
+                }
+                olds.push(base[i].clone());
+                format!("r{i}")
+            }
+            2 => {
+                if added.is_empty() {
+                    added.push(gen_rule(rng, "n0"));
+                }
+                let i = rng.below(added.len());
+                if visible_old {
+                    added[i] = gen_versioned(rng, &format!("n{i}"), "oldadded", old_shape);
+                }
+                olds.push(added[i].clone());
+                format!("n{i}")
+            }
+            3 => {
+                if updated.is_empty() {
+                    if base.is_empty() {
+                        base.push(gen_rule(rng, "r0"));
+                    }
+                    let free: Vec<usize> = (0..base.len()).filter(|i| !deleted.contains(&json!(format!("r{i}")))).collect();
+                    let i = if free.is_empty() {
+                        base.push(gen_rule(rng, &format!("r{}", base.len())));
+                        base.len() - 1
+                    } else {
+                        *rng.pick(&free)
+                    };
+                    updated.push(gen_rule(rng, &format!("r{i}")));
+                }
+                let k = rng.below(updated.len());
+                let id = updated[k]["id"].as_str().unwrap().to_string();
+                let bi: usize = id[1..].parse().unwrap();
+                if visible_old {
+                    // the base version and the updated version in two different buckets
+                    base[bi] = gen_versioned(rng, &id, "oldbase", old_shape);
+                    let s2 = different_shape(rng, old_shape);
+                    updated[k] = gen_versioned(rng, &id, "oldupdated", s2);
+                }
+                olds.push(base[bi].clone());
+                olds.push(updated[k].clone());
+                id
+            }
+            _ => {
+                if deleted.is_empty() {
+                    let touched: Vec<String> = updated.iter().filter_map(|u| u["id"].as_str().map(|s| s.to_string())).collect();
+                    let free: Vec<usize> = (0..base.len()).filter(|i| !touched.contains(&format!("r{i}"))).collect();
+                    let i = if free.is_empty() {
+                        base.push(gen_rule(rng, &format!("r{}", base.len())));
+                        base.len() - 1
+                    } else {
+                        *rng.pick(&free)
+                    };
+                    deleted.push(json!(format!("r{i}")));
+                }
+                let id = rng.pick(&deleted).as_str().unwrap().to_string();
+                let bi: usize = id[1..].parse().unwrap();
+                if visible_old {
+                    base[bi] = gen_versioned(rng, &id, "olddeleted", old_shape);
+                }
+                olds.push(base[bi].clone());
+                id
+            }
+        };
+        // the draft: same source as an old version (1/3) or a different bucket (2/3)
+        let same_source = !olds.is_empty() && rng.chance(1, 3);
+        let mut rule = if rng.chance(1, 6) {
+            gen_rule(rng, &id)
+        } else {
+            let shape = different_shape(rng, old_shape);
+            gen_versioned(rng, &id, "draft", shape)
+        };
+        if same_source {
+            let src = rng.pick(&olds)["source"].clone();
+            rule["source"] = src;
+            if let Some(m) = olds[0].get("markers") {
+                rule["markers"] = m.clone();
+            }
+        }
+        // examples: what every old version matches, what the draft matches, and some noise
+        let mut examples: Vec<Value> = Vec::new();
+        for o in &olds {
+            examples.push(example_for(rng, o));
+        }
+        examples.push(example_for(rng, &rule));
+        if rng.chance(1, 3) {
+            examples.push(gen_example(rng, rule["source"]["path"].as_str()));
+        }
+        rule["examples"] = Value::Array(examples);
+        json!({"rule": rule, "action": action, "with_loop": rng.chance(3, 4), "cat": (["new", "base", "added", "updated", "deleted"][cat]), "same_source": same_source})
+    } else {
+        Value::Null
+    };
+
     let np = rng.below(3) + 1;
-    let probes: Vec<Value> = (0..np)
+    let mut probes: Vec<Value> = (0..np)
         .map(|_| {
             // mostly a url some rule of the final set is about
             let pool: Vec<&Value> = base.iter().chain(added.iter()).chain(updated.iter()).collect();
@@ -269,23 +486,10 @@ fn gen_case(rng: &mut Prng) -> Value {
             gen_example(rng, hint.as_deref())
         })
         .collect();
-    let impact: Value = if rng.chance(3, 4) {
-        // the impact rule: a new rule, an update of an existing one, or a deletion
-        let (id, action) = match rng.below(5) {
-            0 => ("imp".to_string(), "add"),
-            1 if nb > 0 => (format!("r{}", rng.below(nb)), "update"),
-            2 if nb > 0 => (format!("r{}", rng.below(nb)), "delete"),
-            3 if na > 0 => (format!("n{}", rng.below(na)), "update"),
-            _ => ("imp".to_string(), "add"),
-        };
-        let mut rule = gen_rule(rng, &id);
-        if rule["examples"].is_null() || rng.chance(1, 2) {
-            rule["examples"] = Value::Array((0..rng.below(3) + 1).map(|_| gen_example(rng, rule["source"]["path"].as_str())).collect());
-        }
-        json!({"rule": rule, "action": action, "with_loop": rng.chance(3, 4)})
-    } else {
-        Value::Null
-    };
+    // requests that a superseded / deleted version matched
+    for p in old_probes.into_iter().take(2) {
+        probes.push(p);
+    }
     let max_hops = match rng.below(8) { 0 => 0, 1 => 1, 2 => 2, 3 => 3, 4 => 5, 5 => 10, 6 => 255, _ => 4 };
     let domains: Value = match rng.below(4) {
         0 | 1 => json!([]),
@@ -997,6 +1201,8 @@ fn run(case: &Value) -> Obs {
             }
         }
         tags.push(format!("impact:{action}"));
+        let imp = case.get("impact").cloned().unwrap_or(Value::Null);
+        tags.push(format!("impact:{action}/id-{}/{}", imp["cat"].as_str().unwrap_or("?"), if imp["same_source"].as_bool().unwrap_or(false) { "same-source" } else { "other-source" }));
     } else {
         tags.push("impact:none".into());
     }
